@@ -99,6 +99,22 @@ class Tr:
             if all(k == "unit" for _, k in elts):
                 return "[" + ", ".join(t for t, _ in elts) + "]", "units"
             raise NotTranslatable("tuple of non-units")
+        if isinstance(n, ast.ListComp):
+            # [frame['period'] for frame in self.tracer.stack[:-1] if frame['name'] == variable]
+            g = n.generators[0] if len(n.generators) == 1 else None
+            if g is not None and isinstance(g.target, ast.Name) and len(g.ifs) == 1 and ast.unparse(g.iter) == "self.tracer.stack[:-1]" \
+                    and ast.unparse(n.elt) == f"{g.target.id}['period']" and isinstance(g.ifs[0], ast.Compare) and len(g.ifs[0].ops) == 1 \
+                    and isinstance(g.ifs[0].ops[0], ast.Eq) and ast.unparse(g.ifs[0].left) == f"{g.target.id}['name']":
+                rhs, k = self.expr(g.ifs[0].comparators[0])
+                if k != "varname":
+                    raise NotTranslatable("frame name compared with something else than the variable")
+                return f"((below.filter (fun k => k.1 == {rhs})).map (fun k => k.2))", "plist"
+            raise NotTranslatable(f"list comprehension {ast.unparse(n)[:60]}")
+        if isinstance(n, ast.Call) and _attr_path(n.func) == "len" and len(n.args) == 1:
+            a, k = self.expr(n.args[0])
+            if k != "plist":
+                raise NotTranslatable("len of " + k)
+            return f"({a}.length)", "nat"
         if isinstance(n, ast.Call):
             f = _attr_path(n.func)
             if f is not None and f.split(".")[-1] == "unit_weight" and len(n.args) == 1 and not n.keywords:
@@ -123,11 +139,13 @@ class Tr:
                 raise NotTranslatable("is / is not on something else than <optional> is None")
             return f"({a}.isNone)" if isinstance(op, ast.Is) else f"(!{a}.isNone)"
         if isinstance(op, (ast.In, ast.NotIn)):
-            if ka != "unit":
-                raise NotTranslatable("membership of a non-unit")
+            if ka not in ("unit", "pval"):
+                raise NotTranslatable("membership of a " + ka)
             if kb == "names":
                 t = f"({b}.contains ({a}).name)"
             elif kb == "units":
+                t = f"({b}.contains {a})"
+            elif ka == "pval" and kb == "plist":
                 t = f"({b}.contains {a})"
             elif kb == "unit":
                 # DateUnit is a StrEnum: `DateUnit.MONTH in self.unit` is a SUBSTRING test on the unit names
@@ -135,11 +153,11 @@ class Tr:
             else:
                 raise NotTranslatable("membership in " + kb)
             return t if isinstance(op, ast.In) else f"(!{t})"
-        if ka != kb or ka not in ("unit", "int", "bool"):
+        if ka != kb or ka not in ("unit", "int", "bool", "nat"):
             raise NotTranslatable(f"comparison of {ka} with {kb}")
         if isinstance(op, (ast.Eq, ast.NotEq)):
             return f"({a} == {b})" if isinstance(op, ast.Eq) else f"({a} != {b})"
-        if ka != "int":
+        if ka not in ("int", "nat"):
             raise NotTranslatable("ordering of non-integers")
         sym = {ast.Lt: "<", ast.LtE: "≤", ast.Gt: ">", ast.GtE: "≥"}.get(type(op))
         if sym is None:
@@ -220,6 +238,13 @@ def guard_chain(fn: ast.FunctionDef, tr: Tr, skip: list, stop_at: str | None = N
                     continue
                 raise NotTranslatable(f"if-statement of unsupported shape at line {s.lineno}")
             if any(src.startswith(k) for k in skip):
+                continue
+            if isinstance(s, ast.Assign) and len(s.targets) == 1 and isinstance(s.targets[0], ast.Name) and not ctx \
+                    and s.targets[0].id not in tr.vocab and getattr(tr, "lets", None) is not None:
+                # a local definition the later guards speak about (single assignment, outside any `if`)
+                term, kind = tr.expr(s.value)
+                tr.vocab[s.targets[0].id] = (term, kind)
+                tr.lets.append(s.targets[0].id)
                 continue
             if top and stop_at is None and isinstance(s, (ast.Return, ast.Expr, ast.Assign, ast.AnnAssign)) and s is body[-1]:
                 continue
@@ -417,6 +442,11 @@ SPECS = [
     dict(name="parameter_get_at_instant", module="GeneratedParam", file="openfisca_core/parameters/parameter.py", cls="Parameter",
          func="_get_at_instant", kind="firstmatch", params="{V : Type} (l : List (OFCore.Param.Entry V)) (d : Int)", typ="Option V",
          fallback="OFCore.Param.pget l d"),
+    dict(name="checkForCycle", module="GeneratedEngine", file=SIM, cls="Simulation", func="_check_for_cycle", kind="classes",
+         classes={"CycleError": 1, "SpiralError": 2},
+         vocab={"variable": ("v", "varname"), "period": ("p", "pval"), "self.max_spiral_loops": ("msl", "nat")},
+         params="{P : Type} [DecidableEq P] (below : List (Nat × P)) (v : Nat) (p : P) (msl : Nat)", typ="Nat",
+         fallback="if (v, p) ∈ below then 1 else if msl ≤ (below.filter (fun k => k.1 = v)).length then 2 else 0"),
     dict(name="holderSet_raises", file=HOLDER, cls="Holder", func="_set", kind="guards", stop_at="should_store_on_disk",
          vocab=V_HOLDER, params="(du pu : DUnit) (sz : Int)", skip=["value = self._to_array(value)"],
          fallback="OFCore.Tie.holderSetGuards du pu sz"),
@@ -424,6 +454,36 @@ SPECS = [
          vocab=V_HOLDER, params="(du pu : DUnit) (neutralized : Bool)", skip=["period = periods.period(period)"],
          fallback="(pu == DUnit.eternity && du != DUnit.eternity)", raise_only=True),
 ]
+
+
+def _classes_to_lean(fn: ast.FunctionDef, tr: Tr, classes: dict) -> str:
+    """a guard chain whose guards raise DIFFERENT exception classes: the index of the class raised, 0 = none.
+    A guard body may call methods before raising (`self.invalidate_spiral_variables(variable)`): they do not decide."""
+    tr.lets = []
+    lines = []
+    for s in fn.body:
+        if isinstance(s, ast.Expr) and isinstance(s.value, ast.Constant):
+            continue
+        if isinstance(s, ast.Assign) and len(s.targets) == 1 and isinstance(s.targets[0], ast.Name):
+            if s.targets[0].id in tr.vocab:
+                raise NotTranslatable(f"{s.targets[0].id} is assigned twice")
+            tr.vocab[s.targets[0].id] = tr.expr(s.value)
+            continue
+        if isinstance(s, ast.If) and not s.orelse and isinstance(s.body[-1], ast.Raise):
+            exc = s.body[-1].exc
+            name = (_attr_path(exc.func) if isinstance(exc, ast.Call) else _attr_path(exc)) or ""
+            name = name.split(".")[-1]
+            if name not in classes:
+                raise NotTranslatable(f"raises {name}")
+            if not all(_is_msg_assign(x) or (isinstance(x, ast.Expr) and isinstance(x.value, ast.Call)) for x in s.body[:-1]):
+                raise NotTranslatable("guard body does more than call and raise")
+            lines.append(f"  if {tr.boolean(s.test)} then {classes[name]} else")
+            continue
+        raise NotTranslatable(f"statement not understood at line {s.lineno}: {ast.unparse(s)[:60]}")
+    if not lines:
+        raise NotTranslatable("no guard")
+    lines.append("  0")
+    return "\n".join(lines)
 
 
 def _chain_to_lean(chain: list, raise_only: bool = False) -> str:
@@ -450,7 +510,8 @@ def _selector_to_lean(chain: list) -> str:
     return "\n".join(lines)
 
 
-MODULES = {"GeneratedGuards": ("OFCore.TieBase", "OFCore.Generated.Guards"), "GeneratedParam": ("OFCore.Param", "OFCore.Generated.Param")}
+MODULES = {"GeneratedGuards": ("OFCore.TieBase", "OFCore.Generated.Guards"), "GeneratedParam": ("OFCore.Param", "OFCore.Generated.Param"),
+           "GeneratedEngine": ("OFCore.Basic", "OFCore.Generated.Engine")}
 
 
 def translate(repo: str, module: str = "GeneratedGuards") -> tuple[str, dict]:
@@ -473,6 +534,11 @@ def translate(repo: str, module: str = "GeneratedGuards") -> tuple[str, dict]:
                 body = _chain_to_lean(chain, sp.get("raise_only", False))
                 typ = "Bool"
                 doc = f"{len(chain)} guards of `{sp['cls']}.{sp['func']}` ({sp['file']}), first match decides; `true` = raises"
+            elif sp["kind"] == "classes":
+                body = _classes_to_lean(fn, Tr(dict(sp["vocab"])), sp["classes"])
+                typ = sp["typ"]
+                doc = (f"`{sp['cls']}.{sp['func']}` ({sp['file']}): which exception class is raised "
+                       f"({', '.join(f'{v} = {k}' for k, v in sp['classes'].items())}, 0 = none); `below` = `self.tracer.stack[:-1]`")
             elif sp["kind"] == "firstmatch":
                 cond, attr, seq = first_match_loop(fn, lambda x: {f"{x}.instant_str": ("e.date", "int"), "instant": ("d", "int")})
                 if attr != "value" or seq != "self.values_list":
